@@ -68,6 +68,7 @@ def run(R):
     R.extra['trusted_base'] = ['z3', 'vt/sqlsym interpreter', 'vt/glue', 'environment stubs of vt/sqlsym/batchops.py']
     client_ids(R)
     client_end_to_end(R)
+    client_end_to_end(R, bunching=True)
     quick = R.tier == 'quick'
     sizes = model.Sizes(J=3, G=2, U=3, I=1, A=2, T=2, IC=1)
     w = int(os.environ.get('VERIF_WORKERS', '12'))
@@ -170,13 +171,13 @@ def client_ids(R):
     R.sample({'layer': 'id arithmetic', 'pairs': [p[0] for p in pairs], 'secs': round(time.time() - t0, 2)})
 
 
-def client_end_to_end(R):
+def client_end_to_end(R, bunching=False, pid='C09', cls='client-ids-differ-from-server-ids'):
     """the real aioclient.Batch against the real handlers: ids the client computes == ids the server assigned"""
     import z3
     from harness import C09_client as cc
     t0 = time.time()
     thorough = R.tier != 'quick'
-    n, results, choice_vars = cc.explore(thorough)
+    n, results, choice_vars = cc.explore(thorough, bunching=bunching)
     text = loader.read('hail/python/hailtop/batch_client/aioclient.py')
     for nd in ast.walk(ast.parse(text)):
         if isinstance(nd, (ast.FunctionDef, ast.AsyncFunctionDef)) and nd.name in ('_submit', 'submit', '_create_fast', '_update_fast',
@@ -199,12 +200,15 @@ def client_end_to_end(R):
             raise HarnessError('client end-to-end: violating path has an unsatisfiable path condition')
         m = s.model()
         vals = {name: m.eval(v, model_completion=True).as_long() for name, (v, opts) in choice_vars.items()}
-        again = cc.replay_choices(vals, thorough)
+        try:
+            again = cc.replay_choices(vals, thorough, bunching)
+        except Exception as e:
+            again = [f'session raised {type(e).__name__}: {e}']
         if not again:
             raise HarnessError(f'client end-to-end: violation does not reproduce on a concrete re-run: {bad[:2]}')
-        status = R.finding('client-ids-differ-from-server-ids', f'{again[0]} (shape {vals})',
-                           {'kind': 'client', 'choices': vals, 'thorough': thorough, 'violations': again})
-    R.ob(f'client end to end: {n} session shapes (jobs/groups per submit, fast vs multi-bunch path, parents, one retried '
+        status = R.finding(cls, f'{again[0]} (shape {vals})',
+                           {'kind': 'client', 'choices': vals, 'thorough': thorough, 'bunching': bunching, 'violations': again})
+    R.ob(f'client end to end{" (bunches cut by the byte limit)" if bunching else ""}: {n} session shapes (jobs/groups per submit, fast vs multi-bunch path, parents, one retried '
          f'request): client ids == server ids, parents and groups recorded as the client meant, no duplicated job',
          status, time.time() - t0, {'shapes': n, 'observations': sorted(set(cc.OBSERVATIONS))}, nontrivial=True)
     R.sample({'layer': 'client end to end', 'shapes': n, 'observations': sorted(set(cc.OBSERVATIONS))})
@@ -215,7 +219,7 @@ def replay(path):
     d = json.load(open(path))['replay']
     if d.get('kind') == 'client':
         from harness import C09_client as cc
-        bad = cc.replay_choices(d['choices'], d.get('thorough', False))
+        bad = cc.replay_choices(d['choices'], d.get('thorough', False), d.get('bunching', False))
         print(bad)
         return 1 if bad else 0
     return sc_.replay_file(path, asserts)
